@@ -120,9 +120,9 @@ CHECKS = {
     note=TB + "; 32-bit wchar_t configuration; one fix: commit in /repo (two crashes on out-of-range code points)"),
  "C06": dict(
     engine="pathflags",
-    technique="path-sensitive abstract interpretation with a 'destination budget exhausted before a terminator was copied' flag over the 10 non-truncating copy/concatenate functions; plus (in C05) a checked precondition 'measured strlen(src) < dmax' where the result of a nested copy is ignored",
+    technique="path-sensitive abstract interpretation with a 'destination budget exhausted before a terminator was copied' flag over the 10 non-truncating copy/concatenate functions; plus (in C05) a checked precondition 'measured strlen(src) < dmax' where the result of a nested copy is ignored; terminator-position typestate for the pointer-returning functions",
     category="other",
-    text="Decides the clause 'if the complete result does not fit the non-truncating functions fail instead of storing a shortened result': on no path does a success return follow the edge on which the counter initialised from dmax reached zero while data had been written and no terminator copied; every function has such exhausted paths (the rule is not vacuous) and they reach error returns. Equality of the stored bytes with strcpy/strcat/memcpy/..., the word-unrolled primitives at each alignment/length and returned pointers/counts are value-level and not decided.",
+    text="Decides the clause 'if the complete result does not fit the non-truncating functions fail instead of storing a shortened result': on no path does a success return follow the edge on which the counter initialised from dmax reached zero while data had been written and no terminator copied; every function has such exhausted paths (the rule is not vacuous) and they reach error returns. Also decided: the pointer returned by stpcpy_s/stpncpy_s on every success path is the address of the terminating null (the typestate remembers where the terminator was stored or proven, followed through merge phis). Equality of the stored bytes with strcpy/strcat/memcpy/..., the word-unrolled primitives at each alignment/length and returned counts are value-level and not decided.",
     design_ref="DESIGN.md §4 C06",
     note=TB + "; only the no-silent-truncation clause is claimed"),
  "C14": dict(
